@@ -228,7 +228,11 @@ func corpusWorker(args []string) int {
 	realStdout := os.Stdout
 	null, _ := os.OpenFile(os.DevNull, os.O_WRONLY, 0)
 	os.Stdout = null
-	u, err := gengotypes.Load([]string{"github.com/octohelm/gengo/..."}, gengotypes.WithDir(core.RepoDir()))
+	corpus, dir, pattern := "real", core.RepoDir(), "github.com/octohelm/gengo/..."
+	if len(args) >= 7 {
+		corpus, dir, pattern = args[4], args[5], args[6]
+	}
+	u, err := gengotypes.Load([]string{pattern}, gengotypes.WithDir(dir))
 	os.Stdout = realStdout
 	if err != nil {
 		fmt.Fprintln(os.Stderr, "load:", err)
@@ -244,7 +248,7 @@ func corpusWorker(args []string) int {
 		pf.Seek(0, 0)
 		pf.Truncate(0)
 		fmt.Fprintf(pf, "%d %s\n", i, un.id)
-		judge(c, Case{Corpus: "real", Unit: un.id}, un, nil)
+		judge(c, Case{Corpus: corpus, Unit: un.id}, un, nil)
 		if i%200 == 0 || true {
 			// results are flushed at the end; on a crash the parent re-runs from i+1 and the
 			// violations found before the crash are re-found by the restarted child only if they
@@ -253,20 +257,53 @@ func corpusWorker(args []string) int {
 	}
 	fmt.Fprintf(pf, "done %d\n", len(units))
 	pf.Close()
-	c.Bound("real_corpus_units", len(units))
+	c.Bound(corpus+"_corpus_units", len(units))
 	if err := c.WriteResult(os.Stdout); err != nil {
 		return 2
 	}
 	return 0
 }
 
+// a second pinned corpus (thorough): the closure of a module importing a broad set of std packages
+// that gengo itself does not reach (net/http, crypto/tls, database/sql, html/template, ...)
+const stdCorpusSource = `package corp
+
+import (
+	_ "archive/tar"
+	_ "compress/gzip"
+	_ "crypto/tls"
+	_ "database/sql"
+	_ "encoding/xml"
+	_ "go/doc"
+	_ "html/template"
+	_ "image/png"
+	_ "math/big"
+	_ "net/http"
+	_ "net/rpc"
+	_ "os/exec"
+	_ "regexp"
+	_ "testing"
+	_ "text/tabwriter"
+)
+`
+
 func runCorpus(c *core.Ctx) {
+	runCorpusNamed(c, "real", core.RepoDir(), "github.com/octohelm/gengo/...")
+	if c.Thorough() {
+		dir := pipe.TempDir("c14std")
+		defer os.RemoveAll(dir)
+		_ = pipe.WriteTree(dir, pipe.Tree{"go.mod": pipe.GoMod("x.io/corp", "1.24"), "corp.go": stdCorpusSource})
+		runCorpusNamed(c, "std", dir, ".")
+	}
+}
+
+func runCorpusNamed(c *core.Ctx, corpus, cdir, pattern string) {
 	dir := pipe.TempDir("c14")
 	defer os.RemoveAll(dir)
 	progress := dir + "/progress"
 	startAt := 0
 	for restarts := 0; restarts < 40; restarts++ {
-		out, errb, err := core.RunWorker("c14corpus", nil, fmt.Sprint(c.Shard), fmt.Sprint(c.Shards), progress, fmt.Sprint(startAt))
+		out, errb, err := core.RunWorker("c14corpus", nil, fmt.Sprint(c.Shard), fmt.Sprint(c.Shards), progress, fmt.Sprint(startAt), corpus, cdir, pattern)
 		if err == nil {
 			if e := c.Absorb(out); e != nil {
 				c.Internal("corpus worker output: %v", e)
@@ -286,7 +323,7 @@ func runCorpus(c *core.Ctx) {
 			why = "overflowed the stack (unbounded recursion)"
 		}
 		c.Eval(1)
-		c.Fail(classCrash(why), Case{Corpus: "real", Unit: id}, "ResultsOf(%s) %s: %s", id, why, firstLines(string(errb), 3))
+		c.Fail(classCrash(why), Case{Corpus: corpus, Unit: id}, "ResultsOf(%s) %s: %s", id, why, firstLines(string(errb), 3))
 		// results of the units before the crash are lost with the child: re-run them is wasteful, so the
 		// restarted child only continues; to keep the count honest the lost prefix is re-analysed at the end
 		startAt = idx + 1
@@ -334,8 +371,15 @@ func replay(c *core.Ctx, raw json.RawMessage) {
 		checkProgs(c, []Prog{*cs.Prog})
 		return
 	}
-	// real corpus: analyse the one unit in a child (it may be fatal)
-	out, errb, err := core.RunWorker("c14unit", nil, cs.Unit)
+	// real / std corpus: analyse the one unit in a child (it may be fatal)
+	cdir, pattern := core.RepoDir(), "github.com/octohelm/gengo/..."
+	if cs.Corpus == "std" {
+		cdir = pipe.TempDir("c14std")
+		defer os.RemoveAll(cdir)
+		_ = pipe.WriteTree(cdir, pipe.Tree{"go.mod": pipe.GoMod("x.io/corp", "1.24"), "corp.go": stdCorpusSource})
+		pattern = "."
+	}
+	out, errb, err := core.RunWorker("c14unit", nil, cs.Unit, cs.Corpus, cdir, pattern)
 	if err != nil {
 		why := "crashed"
 		if strings.Contains(string(errb), "stack exceeds") {
@@ -355,14 +399,18 @@ func unitWorker(args []string) int {
 	realStdout := os.Stdout
 	null, _ := os.OpenFile(os.DevNull, os.O_WRONLY, 0)
 	os.Stdout = null
-	u, err := gengotypes.Load([]string{"github.com/octohelm/gengo/..."}, gengotypes.WithDir(core.RepoDir()))
+	corpus, cdir, pattern := "real", core.RepoDir(), "github.com/octohelm/gengo/..."
+	if len(args) >= 4 && args[1] != "" {
+		corpus, cdir, pattern = args[1], args[2], args[3]
+	}
+	u, err := gengotypes.Load([]string{pattern}, gengotypes.WithDir(cdir))
 	os.Stdout = realStdout
 	if err != nil {
 		return 2
 	}
 	for _, un := range unitsOf(u, closurePaths(u)) {
 		if un.id == args[0] {
-			judge(c, Case{Corpus: "real", Unit: un.id}, un, nil)
+			judge(c, Case{Corpus: corpus, Unit: un.id}, un, nil)
 		}
 	}
 	if err := c.WriteResult(os.Stdout); err != nil {
@@ -377,7 +425,7 @@ func init() {
 	core.RegisterWorker("c14synth", synthWorker)
 	core.Register(&core.Prop{
 		ID: "C14", Level: "model_checking", Run: run, Replay: replay,
-		Rule: "(a) every package-scope function and every declared method of every package of the real closure of github.com/octohelm/gengo/... (std included), analysed in supervised child processes (fatal stack overflow = violation at that unit, child restarted after it); (b) every synthetic program of the grammar: <=3 functions, result shapes {T, (T,error), (T,U,error), named}, return forms {literals, nil, literal expressions, several returns under if/switch, call, forwarding return f(), assign-then-return, bare return after assignment, closure argument with more/fewer results than the callee, interface method, other package}, all call targets incl. self and mutual recursion. Oracle: no crash, declared arity, n non-empty lists, every alternative constant or assignable type, same answer twice, literal-only functions give exactly the literals in source order. Non-trivial = functions with results; states = distinct (arity, #alternatives)",
+		Rule: "(a) every package-scope function and every declared method of every package of the real closure of github.com/octohelm/gengo/... (std included) - thorough: also of the closure of a module importing 15 further std packages (net/http, crypto/tls, database/sql, html/template, encoding/xml, ...) - analysed in supervised child processes (fatal stack overflow = violation at that unit, child restarted after it); (b) every synthetic program of the grammar: <=3 functions, result shapes {T, (T,error), (T,U,error), named}, return forms {literals, nil, literal expressions, several returns under if/switch, call, forwarding return f(), assign-then-return, bare return after assignment, closure argument with more/fewer results than the callee, interface method, other package}, all call targets incl. self and mutual recursion. Oracle: no crash, declared arity, n non-empty lists, every alternative constant or assignable type, same answer twice, literal-only functions give exactly the literals in source order. Non-trivial = functions with results; states = distinct (arity, #alternatives)",
 		Assumptions: []string{
 			"assignability involving type parameters or instantiated generic types is not judged (go/types cannot decide it outside the declaring scope)",
 			"one pinned corpus: the dependency closure of /repo under the pinned toolchain",
